@@ -713,7 +713,9 @@ class Interp:
         other = self.source(t["src"], None)
         if len(other.cols) != len(rel.cols):
             raise ModelError("append arity")
-        return Rel([(None, n) for (_, n) in rel.cols], list(rel.rows) + list(other.rows), None)
+        # a column that the top relation leaves unnamed takes the bottom relation's name for that position
+        names = [n if n is not None else bn for (_, n), (_, bn) in zip(rel.cols, other.cols)]
+        return Rel(dedup_names([(None, n) for n in names]), list(rel.rows) + list(other.rows), None)
 
     def t_aggregate(self, t, rel):
         items = t["items"]
